@@ -35,7 +35,8 @@ func propC10(c *Ctx, r *Report) {
 	r.NotDecided = append(r.NotDecided,
 		"index-out-of-range on slices other than parser-node lists and with computed indices, nil dereference in general, stack depth of recursive descent, termination, time and memory bounds (allocation sizes driven by array lengths in the source)")
 	c.runPanicfree(r, nil, nil, abortExceptions)
-	r.Clauses = append(r.Clauses, "source-controlled lengths (E9, zone-style dataflow over go/cfg with per-parameter call-site facts): every index expression with a constant or local-variable index on a slice of parser nodes (call arguments, template parameters, attribute arguments, declarations - their length is chosen by the source text) is proven below the length on every path: from len() comparisons, range loops, constant assignments/increments, slicing and append, and the minimum length every caller of an unexported function establishes for the slice it passes")
+	r.Clauses = append(r.Clauses, "source-controlled lengths (E9, zone-style dataflow over go/cfg with per-parameter call-site facts): every index expression with a constant or local-variable index on a slice of parser nodes (call arguments, template parameters, attribute arguments, declarations - their length is chosen by the source text), and every local-variable index into a fixed-size array (swizzle patterns, component buffers), is proven below the length on every path: from len() comparisons, range loops, constant assignments/increments, slicing and append, and the minimum length every caller of an unexported function establishes for the slice it passes")
+	r.Assumptions = append(r.Assumptions, "abort.argindex assumes that a value of type ir.VectorSize is at most 4 (the IR only defines Vec2, Vec3, Vec4 and the frontend creates no other): loops bounded by int(x.Size) index [4]-arrays in range")
 	c.runArgIndex(r, "abort.argindex", inPkgs("wgsl", "ir", "naga"), argIndexExceptions)
 	r.floor("abort.argindex", 120)
 	r.Clauses = append(r.Clauses, "parser loops (E9): every loop of the lexer/parser that keeps consuming tokens until some token kind is seen (or has no condition) also tests for the end of input, or repeats only after a specific token was matched - otherwise a truncated source makes the parser spin forever")
